@@ -179,12 +179,12 @@ class Env:
                 arg = None
                 for bi, t, c2 in parent.calls():
                     mk = PURE.get(callee_model_key(c2))
-                    if mk in ("Option::map", "Option::and_then") and len(t["args"]) == 2:
-                        a1 = self.ev.operand(pctx, t["args"][1])
+                    if mk in ("Option::map", "Option::and_then", "Option::map_or") and len(t["args"]) in (2, 3):
+                        a1 = self.ev.operand(pctx, t["args"][-1])
                         if unref(a1) == clo:
                             recv = self.ev.operand(pctx, t["args"][0])
                             arg = self.ev.payload(pctx, recv)
-                if arg is not None and arg[0] != "payload":
+                if arg is not None:
                     params.append(arg)
                 params = tuple(params)
             c = Ctx(body, params=params, self_adt=pctx.self_adt, bindings=pctx.bindings,
